@@ -25,11 +25,12 @@ theorem mapM_some_mem {α β : Type} (F : α → Option β) (l : List α) (ys : 
 
 /-- If the search returns for a list of `i32` errors, no error is `i32::MIN` and the returned choice
 lies in the search space. -/
-theorem search_space (errors : List Int) (warm maxP : Nat) (prc : PrcParameter)
+theorem search_space' (errors : List Int) (warm maxP : Nat) (prc : PrcParameter)
     (hfit : ∀ e ∈ errors, fitsI32 e = true) (hn : max 64 warm ≤ errors.length) (hlen : errors.length < 2 ^ 16)
     (hmax : maxP ≤ 14) (h : search errors warm maxP = some prc) :
     (∀ e ∈ errors, -(2 ^ 31 : Int) < e ∧ e < (2 ^ 31 : Int)) ∧ prc.order ≤ 15 ∧
-    prc.ps.length = 2 ^ prc.order ∧ 2 ^ prc.order ∣ errors.length ∧ warm ≤ errors.length >>> prc.order ∧
+    prc.ps.length = 2 ^ prc.order ∧ 2 ^ prc.order ∣ errors.length ∧
+    max 64 warm ≤ errors.length >>> prc.order ∧
     ∀ p ∈ prc.ps, p ≤ 14 := by
   have herr : ∀ e ∈ errors, -(2 ^ 31 : Int) < e ∧ e < (2 ^ 31 : Int) := by
     intro e he
@@ -56,21 +57,45 @@ theorem search_space (errors : List Int) (warm maxP : Nat) (prc : PrcParameter)
   simp only [candAt]
   refine ⟨h15, psAt_length _ _ _ _, Nat.dvd_of_mod_eq_zero hmod, ?_, ?_⟩
   · rw [Nat.shiftRight_eq_div_pow, Nat.le_div_iff_mul_le (Nat.two_pow_pos _)]
-    have : warm * 2 ^ o' ≤ max 64 warm * 2 ^ o' := Nat.mul_le_mul_right _ (by omega)
-    omega
+    exact hmul
   · intro p hp
     have := psAt_le _ _ _ _ p hp
     omega
 
-/-- The residual the encoder emits after a successful search. -/
+/-- If the search returns for a list of `i32` errors, no error is `i32::MIN` and the returned choice
+lies in the search space; in particular every partition holds at least `max 64 warm` values
+(`search_space'`), hence at least `warm`. -/
+theorem search_space (errors : List Int) (warm maxP : Nat) (prc : PrcParameter)
+    (hfit : ∀ e ∈ errors, fitsI32 e = true) (hn : max 64 warm ≤ errors.length) (hlen : errors.length < 2 ^ 16)
+    (hmax : maxP ≤ 14) (h : search errors warm maxP = some prc) :
+    (∀ e ∈ errors, -(2 ^ 31 : Int) < e ∧ e < (2 ^ 31 : Int)) ∧ prc.order ≤ 15 ∧
+    prc.ps.length = 2 ^ prc.order ∧ 2 ^ prc.order ∣ errors.length ∧ warm ≤ errors.length >>> prc.order ∧
+    ∀ p ∈ prc.ps, p ≤ 14 := by
+  obtain ⟨h1, h2, h3, h4, h5, h6⟩ := search_space' errors warm maxP prc hfit hn hlen hmax h
+  exact ⟨h1, h2, h3, h4, by omega, h6⟩
+
+/-- The residual the encoder emits after a successful search is well-formed. -/
+theorem residual_wf_of_search (errors : List Int) (warm maxP : Nat) (prc : PrcParameter)
+    (hfit : ∀ e ∈ errors, fitsI32 e = true) (hn : max 64 warm ≤ errors.length) (hlen : errors.length < 2 ^ 16)
+    (hmax : maxP ≤ 14) (h : search errors warm maxP = some prc) :
+    (Residual.ofErrors errors warm prc.order prc.ps).WF := by
+  obtain ⟨herr, h15, hpl, hdvd, hw, hp⟩ := search_space errors warm maxP prc hfit hn hlen hmax h
+  exact ofErrors_wf errors warm prc.order prc.ps errors.length rfl (by omega) h15 hpl hdvd hw hp herr
+
+/-- The residual the encoder emits after a successful search, for a predictor order below
+`MIN_PARTITION_SIZE = 64` (fixed orders are at most 4, LPC orders at most 32): every partition holds at
+least 64 values, so the first one is LONGER than the predictor order, as RFC 9639 section 9.2.7 demands,
+and the strict reader accepts. (For `warm ≥ 64` the search may return a partition order with
+`n >> order = warm` — e.g. `n = warm = 64`, partition order 0 —, which the strict reader rejects; the
+encoder never calls the search with such a warm-up length.) -/
 theorem residual_of_search (errors : List Int) (warm maxP : Nat) (prc : PrcParameter)
     (hfit : ∀ e ∈ errors, fitsI32 e = true) (hn : max 64 warm ≤ errors.length) (hlen : errors.length < 2 ^ 16)
-    (hmax : maxP ≤ 14) (h : search errors warm maxP = some prc) (k : Bits) :
+    (hmax : maxP ≤ 14) (hw64 : warm < 64) (h : search errors warm maxP = some prc) (k : Bits) :
     (Residual.ofErrors errors warm prc.order prc.ps).WF ∧
     readResidual errors.length warm ((Residual.ofErrors errors warm prc.order prc.ps).bits ++ k) =
       .ok (⟨prc.order, prc.ps, errors.drop warm⟩, k) := by
-  obtain ⟨herr, h15, hpl, hdvd, hw, hp⟩ := search_space errors warm maxP prc hfit hn hlen hmax h
-  exact readResidual_ofErrors errors warm prc.order prc.ps errors.length rfl (by omega) h15 hpl hdvd hw hp herr k
+  obtain ⟨herr, h15, hpl, hdvd, hw, hp⟩ := search_space' errors warm maxP prc hfit hn hlen hmax h
+  exact readResidual_ofErrors errors warm prc.order prc.ps errors.length rfl (by omega) h15 hpl hdvd (by omega) hp herr k
 
 end Strict
 end FlacVerif
